@@ -1190,7 +1190,9 @@ fn corr_matrix(rng: &mut Rng, m: usize, n: usize, w32: bool, fam: usize) -> (Str
         }
         6 => {
             // graded columns
-            ("graded", (0..m).map(|_| (0..n).map(|j| rng.normal() * 10f64.powi(-4 * j as i32)).collect()).collect())
+            // the model's hypot is sqrt(a*a+b*b): keep a*a inside the normal range of the width (libm's hypot rescales)
+            let step = if w32 { -2 } else { -4 };
+            ("graded", (0..m).map(|_| (0..n).map(|j| rng.normal() * 10f64.powi(step * j.min(8) as i32)).collect()).collect())
         }
         7 => {
             let s = if w32 { 1e-12 } else { *rng.pick(&[1e-12, 1e12, 1e-18]) };
@@ -1363,6 +1365,15 @@ fn correspondence(out: &mut Out, rng: &mut Rng, thorough: bool) {
             // continuous / lattice data only: columns belonging to (near-)equal singular values are not determined
             let a: Rows = to_width(&(0..m).map(|_| (0..n).map(|_| if rng.bool() { rng.normal() } else { rng.dyadic(4, 4) }).collect()).collect(), w32);
             let a = if rng.chance(0.25) { to_width(&scale_rows(&a, *rng.pick(&[1e-12, 1e12])), w32) } else { a };
+            // every fourth case: exactly rank-deficient integer product (m >= n), so that SVD::solve's rank threshold
+            // decides; the null-space columns are not determined, so only the tail and the solve are compared
+            let rankdef = rep % 4 == 3 && m >= n && n >= 2;
+            let a = if rankdef {
+                let r = rng.usize_in(1, n - 1);
+                let bi: Rows = (0..m).map(|_| (0..r).map(|_| rng.int(-3, 3) as f64).collect()).collect();
+                let ci: Rows = (0..r).map(|_| (0..n).map(|_| rng.int(-3, 3) as f64).collect()).collect();
+                matmul(&bi, &ci)
+            } else { a };
             let svd_res = svd_run(&a, w32);
             if svd_res.is_err() {
                 // a panic of the implementation must be the model's "no convergence in 30 iterations"
@@ -1375,7 +1386,9 @@ fn correspondence(out: &mut Out, rng: &mut Rng, thorough: bool) {
                     (o.s[i] - next) > 1e-3 * o.s[0]
                 });
                 let small_entry = o.u.iter().flatten().chain(o.v.iter().flatten()).any(|x| x.abs() < 1e-6 && *x != 0.0);
-                if gap_ok && !small_entry {
+                if rankdef {
+                    out.count("corr:svd_solve:rank_deficient_input");
+                } else if gap_ok && !small_entry {
                     let tol = if w32 { 2e-3 } else { 1e-8 };
                     out.corr("svd", format!("corr_svd {} {} {} {} {} {} {} {} {} {}", w, coq_n(m), coq_n(n), coq_n(k), coq_rows(&a), coq_f64(tol), coq_f64(o.s[0]),
                                             coq_rows(&o.u), coq_list_f64(&o.s), coq_rows(&o.v)),
